@@ -1,7 +1,6 @@
 package main
 
 import (
-	"bytes"
 	"fmt"
 	"sort"
 	"strings"
@@ -16,6 +15,7 @@ import (
 func init() {
 	execs["c18.proof"] = execC18Proof
 	execs["c18.key"] = execC18Key
+	execs["c18.multi"] = execC18Multi
 	gens["C18"] = genC18
 }
 
@@ -165,7 +165,7 @@ func randKeySet(r *prng.R, width, count int) []string {
 	set := map[string]bool{}
 	shape := r.Intn(4)
 	base := randBits(r, width)
-	for len(set) < count {
+	for tries := 0; len(set) < count && tries < 40*count; tries++ {
 		var k string
 		switch shape {
 		case 0:
@@ -195,10 +195,170 @@ func randKeySet(r *prng.R, width, count int) []string {
 	return keys
 }
 
+// ---- histories: ONE MerkleProver used for a sequence of operations.
+//   ('key b<key> n<vbits>)  tlb.ProveKeyInHashmap(prover, root, key)
+//   ('walk (path ...))      prover.Cursor(), Ref/Prune along the paths, CreateProof
+//   ('drop (path ...))      the same cursor work, abandoned without CreateProof
+// Result: one entry per operation: x<proof> | 'err | 'none | 'panic.
+
+func c18PathsOf(v sx.V) [][]int {
+	var paths [][]int
+	for _, p := range v.List {
+		var ks []int
+		for _, k := range p.List {
+			ks = append(ks, k.I())
+		}
+		paths = append(paths, ks)
+	}
+	return paths
+}
+
+func c18RunOp(prover *boc.MerkleProver, root *boc.Cell, op sx.V) (out sx.V) {
+	defer func() {
+		if r := recover(); r != nil {
+			out = sx.A("panic")
+		}
+	}()
+	switch op.Head() {
+	case "key":
+		root.ResetCounters()
+		_, proof, err := tlb.ProveKeyInHashmap[tlb.Uint32](prover, root, bitStringOf(op.List[1].Bits))
+		if err != nil {
+			return sx.A("err")
+		}
+		return sx.Bytes(proof)
+	case "walk", "drop":
+		cursor := prover.Cursor()
+		for _, p := range c18PathsOf(op.List[1]) {
+			cc := cursor
+			for _, k := range p {
+				cc = cc.Ref(k)
+			}
+			cc.Prune()
+		}
+		if op.Head() == "drop" {
+			return sx.A("none")
+		}
+		proof, err := prover.CreateProof(cursor)
+		if err != nil {
+			return sx.A("err")
+		}
+		return sx.Bytes(proof)
+	}
+	return sx.A("badop")
+}
+
+func execC18Multi(in sx.V) sx.V {
+	dag := dagFromSx(in.List[0])
+	cells, err := buildGo(dag)
+	if err != nil {
+		return sx.A("err")
+	}
+	root := cells[in.List[1].I()]
+	prover, err := boc.NewMerkleProver(root)
+	if err != nil {
+		return sx.A("err")
+	}
+	var outs []sx.V
+	for _, op := range in.List[2].List {
+		outs = append(outs, c18RunOp(prover, root, op))
+	}
+	return sx.L(outs...)
+}
+
+func opKey(k string) sx.V       { return sx.L(sx.A("key"), sx.Bits(k), sx.Nat(32)) }
+func opWalk(paths [][]int) sx.V { return sx.L(sx.A("walk"), pathsSx(paths)) }
+func opDrop(paths [][]int) sx.V { return sx.L(sx.A("drop"), pathsSx(paths)) }
+
+// c18MultiOracle judges every operation of a history by itself: the expected
+// outcome of operation i depends on (source, operation i) only.
+func c18MultiOracle(c *Ctx, in sx.V, src *c18Src, ops []sx.V, out sx.V) {
+	if out.K != sx.KL || len(out.List) != len(ops) {
+		if _, _, ok := src.level0(0); ok {
+			c.Fail("c18.multi", in, "history-shape", "the history did not yield one result per operation")
+		}
+		return
+	}
+	before := len(c.fails)
+	for i, op := range ops {
+		if len(c.fails) > before {
+			break // report the first offending operation of a history only
+		}
+		tag := fmt.Sprintf("operation %d of %d on one prover (%s): ", i+1, len(ops), trunc(op.String(), 80))
+		switch op.Head() {
+		case "key":
+			c18KeyOracle(c, "c18.multi", in, tag, src, op.List[1].Bits, out.List[i])
+		case "walk":
+			c18WalkOracle(c, "c18.multi", in, tag, src, c18PathsOf(op.List[1]), out.List[i])
+		}
+	}
+}
+
+func randDict(r *prng.R, width, count int) (dag []Node, keys []string, forms int) {
+	keys = randKeySet(r, width, count)
+	vals := make([]uint32, len(keys))
+	for j := range vals {
+		vals[j] = uint32(r.U64())
+	}
+	if r.Chance(50) {
+		forms = 1
+	}
+	buildDict(&dag, keys, vals, 0, r, forms)
+	return dag, keys, forms
+}
+
+// unfoldedSize is the number of positions of the tree a DAG unfolds to (what
+// the tree model walks), capped.
+func unfoldedSize(dag []Node) int {
+	sz := make([]int, len(dag))
+	for i := len(dag) - 1; i >= 0; i-- {
+		n := 1
+		for _, r := range dag[i].Refs {
+			n += sz[r]
+		}
+		if n > 1<<20 {
+			n = 1 << 20
+		}
+		sz[i] = n
+	}
+	return sz[0]
+}
+
+// smallTree draws DAGs until the unfolded tree has at most max positions.
+func smallTree(max int, draw func() []Node) []Node {
+	for {
+		if d := draw(); unfoldedSize(d) <= max {
+			return d
+		}
+	}
+}
+
+func hasKey(keys []string, k string) bool {
+	i := sort.SearchStrings(keys, k)
+	return i < len(keys) && keys[i] == k
+}
+
+func absentKey(r *prng.R, keys []string, width int, near bool) (string, bool) {
+	for try := 0; try < 8; try++ {
+		var k string
+		if !near {
+			k = randBits(r, width)
+		} else { // one bit away from a present key
+			b := []byte(keys[r.Intn(len(keys))])
+			b[r.Intn(width)] ^= 1
+			k = string(b)
+		}
+		if !hasKey(keys, k) {
+			return k, true
+		}
+	}
+	return "", false
+}
+
 func genC18(c *Ctx) {
 	r := c.R
-	// 1. dictionaries x present keys + absent keys
-	nd := c.Scale(45, 1500)
+	// 1. dictionaries x present keys + absent keys, one prover per key
+	nd := c.Scale(40, 1500)
 	for i := 0; i < nd; i++ {
 		width := []int{8, 9, 16, 32, 64, 80, 256}[r.Intn(7)]
 		if r.Chance(20) {
@@ -208,17 +368,8 @@ func genC18(c *Ctx) {
 		if i%10 == 0 {
 			count = 20 + r.Intn(40)
 		}
-		keys := randKeySet(r, width, count)
-		vals := make([]uint32, len(keys))
-		for j := range vals {
-			vals[j] = uint32(r.U64())
-		}
-		var dag []Node
-		forms := 0
-		if r.Chance(50) {
-			forms = 1
-		}
-		buildDict(&dag, keys, vals, 0, r, forms)
+		dag, keys, forms := randDict(r, width, count)
+		src := newC18Src(dag)
 		dsx := dagSx(dag)
 		present := keys
 		if len(present) > 4 && !c.Thorough() {
@@ -227,203 +378,281 @@ func genC18(c *Ctx) {
 		for _, k := range present {
 			in := sx.L(dsx, sx.Nat(0), sx.Bits(k), sx.Nat(32))
 			out := c.Emit("c18.key", in, fmt.Sprintf("present|w%d|forms%d|n%d", bucket(width), forms, bucket(len(keys))))
-			c18KeyOracle(c, in, dag, k, out, true, vals[sort.SearchStrings(keys, k)])
+			c18KeyOracle(c, "c18.key", in, "", src, k, out)
 		}
 		for j := 0; j < 2; j++ {
-			var k string
-			if j == 0 {
-				k = randBits(r, width)
-			} else { // one bit away from a present key
-				b := []byte(keys[r.Intn(len(keys))])
-				p := r.Intn(width)
-				b[p] ^= 1
-				k = string(b)
-			}
-			if sort.SearchStrings(keys, k) < len(keys) && keys[sort.SearchStrings(keys, k)] == k {
+			k, ok := absentKey(r, keys, width, j == 1)
+			if !ok {
 				continue
 			}
 			in := sx.L(dsx, sx.Nat(0), sx.Bits(k), sx.Nat(32))
 			out := c.Emit("c18.key", in, fmt.Sprintf("absent|w%d|forms%d", bucket(width), forms))
-			c18KeyOracle(c, in, dag, k, out, false, 0)
+			c18KeyOracle(c, "c18.key", in, "", src, k, out)
 		}
 	}
-	// 2. arbitrary trees x arbitrary prune sets through the cursor API
-	nt := c.Scale(120, 4000)
+	// 2. arbitrary ordinary trees x arbitrary prune sets through the cursor API
+	nt := c.Scale(100, 4000)
 	for i := 0; i < nt; i++ {
 		size := 1 + r.Intn(9)
 		dag := randDag(r, size)
-		// collect some valid paths from the root
-		var paths []sx.V
 		np := r.Intn(4)
-		for j := 0; j < np; j++ {
-			cur := 0
-			var p []sx.V
-			steps := r.Intn(4)
-			for s := 0; s < steps && len(dag[cur].Refs) > 0; s++ {
-				k := r.Intn(len(dag[cur].Refs))
-				p = append(p, sx.Nat(k))
-				cur = dag[cur].Refs[k]
-			}
-			paths = append(paths, sx.L(p...))
-		}
-		in := sx.L(dagSx(dag), sx.Nat(0), sx.L(paths...))
+		paths := randPaths(r, dag, np, 3)
+		in := sx.L(dagSx(dag), sx.Nat(0), pathsSx(paths))
 		out := c.Emit("c18.proof", in, fmt.Sprintf("cursor|n%d|prunes%d", bucket(size), np))
-		c18ProofOracle(c, in, dag, out)
+		c18WalkOracle(c, "c18.proof", in, "", newC18Src(dag), paths, out)
 	}
+	// 3. histories over ONE prover of a dictionary: proofs for several present
+	// keys, failing attempts for absent keys, cursor walks (kept or abandoned)
+	nh := c.Scale(36, 700)
+	for i := 0; i < nh; i++ {
+		width := []int{8, 9, 16, 32, 64, 256}[r.Intn(6)]
+		count := 2 + r.Intn(9)
+		dag, keys, _ := randDict(r, width, count)
+		order := append([]string{}, keys...)
+		for j := len(order) - 1; j > 0; j-- {
+			k := r.Intn(j + 1)
+			order[j], order[k] = order[k], order[j]
+		}
+		nops := 2 + r.Intn(6)
+		var ops []sx.V
+		np, na, nw := 0, 0, 0
+		for j := 0; j < nops; j++ {
+			switch k := r.Intn(10); {
+			case k < 5 && np < len(order):
+				ops = append(ops, opKey(order[np]))
+				np++
+			case k < 7:
+				if ak, ok := absentKey(r, keys, width, r.Bool()); ok {
+					ops = append(ops, opKey(ak))
+					na++
+				}
+			case k < 9:
+				ops = append(ops, opWalk(randPaths(r, dag, r.Intn(3), 4)))
+				nw++
+			default:
+				ops = append(ops, opDrop(randPaths(r, dag, 1+r.Intn(2), 4)))
+				nw++
+			}
+		}
+		// a history always ends with a proof for a present key or a walk
+		if np < len(order) && r.Chance(70) {
+			ops = append(ops, opKey(order[np]))
+			np++
+		} else {
+			ops = append(ops, opWalk(randPaths(r, dag, r.Intn(2), 3)))
+			nw++
+		}
+		in := sx.L(dagSx(dag), sx.Nat(0), sx.L(ops...))
+		out := c.Emit("c18.multi", in, fmt.Sprintf("history-dict|w%d|present%d|absent%d|walks%d", bucket(width), minInt(np, 3), minInt(na, 2), minInt(nw, 2)))
+		c18MultiOracle(c, in, newC18Src(dag), ops, out)
+	}
+	// 4. histories over ONE prover of an arbitrary tree: several cursors
+	nh = c.Scale(30, 600)
+	for i := 0; i < nh; i++ {
+		size := 2 + r.Intn(8)
+		exotic := i%3 == 2
+		dag := smallTree(120, func() []Node {
+			if exotic {
+				return c18ExoticDag(r, size, false, false)
+			}
+			return randDag(r, size)
+		})
+		nops := 2 + r.Intn(4)
+		var ops []sx.V
+		for j := 0; j < nops; j++ {
+			if r.Chance(25) && j < nops-1 {
+				ops = append(ops, opDrop(randPaths(r, dag, 1+r.Intn(2), 3)))
+			} else {
+				ops = append(ops, opWalk(randPaths(r, dag, r.Intn(3), 3)))
+			}
+		}
+		in := sx.L(dagSx(dag), sx.Nat(0), sx.L(ops...))
+		out := c.Emit("c18.multi", in, fmt.Sprintf("history-tree|exotic%v|n%d|ops%d", exotic, bucket(len(dag)), nops))
+		c18MultiOracle(c, in, newC18Src(dag), ops, out)
+	}
+	// 5. sources that already contain exotic cells
+	genC18Exotic(c)
 }
 
-// oracles on the implementation's proof bytes
-func c18ProofOracle(c *Ctx, in sx.V, dag []Node, out sx.V) *boc.Cell {
-	defer func() { _ = recover() }()
-	if out.K != sx.KBytes {
-		return nil
-	}
-	cells, err := buildGo(dag)
-	if err != nil {
-		return nil
-	}
-	root := cells[0]
-	h0, d0, err := boc.VerifLevelHash(root, 0)
-	if err != nil {
-		return nil
-	}
-	parsed, err := boc.DeserializeBoc(out.Bytes)
-	if err != nil || len(parsed) != 1 {
-		c.Fail(in.Head(), in, "proof-not-boc", "the proof is not a single-root bag of cells")
-		return nil
-	}
-	p := parsed[0]
-	if p.CellType() != boc.MerkleProofCell || p.RefsSize() != 1 || p.BitSize() != 8+256+16 || p.Level() != 0 {
-		c.Fail("c18", in, "proof-root-shape", "the proof root is not a level-0 Merkle-proof cell with one reference")
-		return nil
-	}
-	data, _ := p.ReadBytes(35)
-	want := append([]byte{3}, h0...)
-	want = append(want, byte(d0>>8), byte(d0))
-	if !bytes.Equal(data, want) {
-		c.Fail("c18", in, "proof-root-data", "the proof root does not carry the hash and depth of the original root")
-	}
-	body := p.Refs()[0]
-	hb, db, err := boc.VerifLevelHash(body, 0)
-	if err != nil || !bytes.Equal(hb, h0) || db != d0 {
-		c.Fail("c18", in, "proof-level0", "the pruned tree does not have the original root's hash/depth at level zero")
-	}
-	// every pruned branch stores the hash and depth of the subtree it replaces
-	var walk func(o, q *boc.Cell, depth int)
-	walk = func(o, q *boc.Cell, depth int) {
-		if depth > 64 {
-			return
+// genC18Exotic: the source given to NewMerkleProver is the body of an earlier
+// proof (level-1 pruned branches), a partially pruned dictionary, or a tree
+// with pruned branches of any level mask, library cells and Merkle cells.
+func genC18Exotic(c *Ctx) {
+	r := c.R
+	// 5a. narrowing the body of an earlier proof: second prune set = nothing /
+	// an existing pruned branch / an ancestor of one / a sibling / random
+	nn := c.Scale(60, 1500)
+	for i := 0; i < nn; i++ {
+		size := 3 + r.Intn(8)
+		plain := smallTree(400, func() []Node { return randDag(r, size) })
+		psrc := newC18Src(plain)
+		if psrc == nil {
+			continue
 		}
-		if q.CellType() == boc.PrunedBranchCell && o.CellType() != boc.PrunedBranchCell {
-			ho, do, err := boc.VerifLevelHash(o, 0)
-			if err != nil {
-				return
+		first := prunedIdx(plain, randPaths(r, plain, 1+r.Intn(2), 3))
+		delete(first, 0)
+		if r.Chance(10) {
+			first[0] = true
+		}
+		dag := c18PruneDag(psrc, first)
+		if dag == nil {
+			continue
+		}
+		to := pathsTo(dag)
+		var pbs, anc, sib []int // pruned branches; their proper ancestors; cells that are neither
+		isAnc := map[int]bool{}
+		for j := len(dag) - 1; j >= 0; j-- {
+			if nodeType(dag[j]) == 1 {
+				pbs = append(pbs, j)
+				isAnc[j] = true
+				continue
 			}
-			q.ResetCounters()
-			d, _ := q.ReadBytes(36)
-			w := append([]byte{1, 1}, ho...)
-			w = append(w, byte(do>>8), byte(do))
-			if !bytes.Equal(d, w) || q.BitSize() != 288 {
-				c.Fail("c18", in, "pruned-stores", "a pruned-branch cell does not store the hash and depth of the subtree it replaces")
+			for _, ch := range dag[j].Refs {
+				if isAnc[ch] {
+					isAnc[j] = true
+				}
 			}
-			return
-		}
-		or, qr := o.Refs(), q.Refs()
-		if len(or) != len(qr) {
-			c.Fail("c18", in, "proof-shape", "the pruned tree has a different shape from the original")
-			return
-		}
-		for i := range or {
-			walk(or[i], qr[i], depth+1)
-		}
-	}
-	walk(root, body, 0)
-	return body
-}
-
-func readLabel(bits string, m int) (lab string, rest string, ok bool) {
-	if len(bits) < 2 {
-		return "", "", false
-	}
-	w := limBits(m)
-	switch {
-	case bits[0] == '0':
-		i := 1
-		for i < len(bits) && bits[i] == '1' {
-			i++
-		}
-		n := i - 1
-		if i >= len(bits) || len(bits) < i+1+n {
-			return "", "", false
-		}
-		return bits[i+1 : i+1+n], bits[i+1+n:], true
-	case bits[1] == '0':
-		if len(bits) < 2+w {
-			return "", "", false
-		}
-		n := 0
-		for _, ch := range bits[2 : 2+w] {
-			n = n*2 + int(ch-'0')
-		}
-		if len(bits) < 2+w+n {
-			return "", "", false
-		}
-		return bits[2+w : 2+w+n], bits[2+w+n:], true
-	default:
-		if len(bits) < 3+w {
-			return "", "", false
-		}
-		n := 0
-		for _, ch := range bits[3 : 3+w] {
-			n = n*2 + int(ch-'0')
-		}
-		return strings.Repeat(bits[2:3], n), bits[3+w:], true
-	}
-}
-
-func c18KeyOracle(c *Ctx, in sx.V, dag []Node, key string, out sx.V, present bool, val uint32) {
-	if !present {
-		if out.K == sx.KBytes {
-			c.Fail("c18.key", in, "absent-key-proof", "a proof was produced for a key that is not in the dictionary")
-		}
-		return
-	}
-	if out.K != sx.KBytes {
-		c.Fail("c18.key", in, "present-key-error", "no proof for a key that is in the dictionary")
-		return
-	}
-	body := c18ProofOracle(c, in, dag, out)
-	if body == nil {
-		return
-	}
-	defer func() { _ = recover() }()
-	// the value for the key can be decoded from the proof
-	cur := body
-	rem := key
-	for steps := 0; steps < 1100; steps++ {
-		if cur.CellType() == boc.PrunedBranchCell {
-			c.Fail("c18.key", in, "value-pruned", "the path to the proven key is pruned in the proof")
-			return
-		}
-		bs := cur.RawBitString()
-		lab, rest, ok := readLabel(bitsOf(&bs), len(rem))
-		if !ok || !strings.HasPrefix(rem, lab) {
-			c.Fail("c18.key", in, "value-path", "the proof's dictionary does not contain the proven key")
-			return
-		}
-		rem = rem[len(lab):]
-		if rem == "" {
-			if len(rest) < 32 || rest[:32] != fmt.Sprintf("%032b", val) {
-				c.Fail("c18.key", in, "value-wrong", "the value decoded from the proof differs from the dictionary's value")
+			if isAnc[j] {
+				anc = append(anc, j)
+			} else {
+				sib = append(sib, j)
 			}
-			return
 		}
-		refs := cur.Refs()
-		if len(refs) != 2 {
-			c.Fail("c18.key", in, "value-fork", "fork without two references in the proof")
-			return
+		mode := i % 5
+		var paths [][]int
+		pick := func(xs []int) {
+			if len(xs) > 0 {
+				paths = append(paths, to[xs[r.Intn(len(xs))]])
+			}
 		}
-		cur = refs[rem[0]-'0']
-		rem = rem[1:]
+		switch mode {
+		case 0: // nothing
+		case 1:
+			pick(pbs)
+		case 2:
+			pick(anc)
+			if r.Chance(30) {
+				pick(anc)
+			}
+		case 3:
+			pick(sib)
+		default:
+			paths = randPaths(r, dag, 1+r.Intn(3), 4)
+		}
+		in := sx.L(dagSx(dag), sx.Nat(0), pathsSx(paths))
+		name := []string{"none", "pruned-branch", "ancestor", "sibling", "random"}[mode]
+		out := c.Emit("c18.proof", in, fmt.Sprintf("narrow|second-%s|n%d|pb%d", name, bucket(len(dag)), minInt(len(pbs), 3)))
+		c18WalkOracle(c, "c18.proof", in, "", newC18Src(dag), paths, out)
+	}
+	// 5b. a partially pruned dictionary (the body of a cursor proof that kept
+	// the paths of a few keys): proofs for kept keys, for keys whose path is
+	// pruned, and for absent keys; alone and as a history over one prover
+	nk := c.Scale(30, 700)
+	for i := 0; i < nk; i++ {
+		width := []int{8, 9, 16, 32, 64, 256}[r.Intn(6)]
+		count := 3 + r.Intn(9)
+		full, keys, _ := randDict(r, width, count)
+		fsrc := newC18Src(full)
+		keep := map[string]bool{}
+		for nkeep := 1 + r.Intn(minInt(3, len(keys))); len(keep) < nkeep; {
+			keep[keys[r.Intn(len(keys))]] = true
+		}
+		// prune every sibling that is off the paths of all kept keys
+		onPath := map[int]bool{0: true}
+		first := map[int]bool{}
+		for k := range keep {
+			pr, _, _ := c18KeyWalk(full, k)
+			for s := range pr {
+				first[s] = true
+			}
+		}
+		for k := range keep {
+			cur, rem := 0, k
+			for {
+				onPath[cur] = true
+				lab, _, ok := readLabel(full[cur].Bits, len(rem))
+				if !ok || len(lab) >= len(rem) {
+					break
+				}
+				rem = rem[len(lab):]
+				cur = full[cur].Refs[rem[0]-'0']
+				rem = rem[1:]
+			}
+		}
+		for s := range first {
+			if onPath[s] {
+				delete(first, s)
+			}
+		}
+		dag := c18PruneDag(fsrc, first)
+		if dag == nil {
+			continue
+		}
+		src := newC18Src(dag)
+		dsx := dagSx(dag)
+		var kept, gone []string
+		for _, k := range keys {
+			if keep[k] {
+				kept = append(kept, k)
+			} else {
+				gone = append(gone, k)
+			}
+		}
+		var ops []sx.V
+		for _, k := range kept {
+			ops = append(ops, opKey(k))
+		}
+		if len(gone) > 0 {
+			ops = append(ops, opKey(gone[r.Intn(len(gone))]))
+		}
+		if ak, ok := absentKey(r, keys, width, true); ok {
+			ops = append(ops, opKey(ak))
+		}
+		for j := len(ops) - 1; j > 0; j-- {
+			k := r.Intn(j + 1)
+			ops[j], ops[k] = ops[k], ops[j]
+		}
+		class := fmt.Sprintf("w%d|kept%d", bucket(width), len(kept))
+		if i%2 == 0 {
+			for _, op := range ops {
+				k := op.List[1].Bits
+				in := sx.L(dsx, sx.Nat(0), sx.Bits(k), sx.Nat(32))
+				out := c.Emit("c18.key", in, fmt.Sprintf("narrow-dict|%s|keptkey%v|inkeys%v", class, keep[k], hasKey(keys, k)))
+				c18KeyOracle(c, "c18.key", in, "", src, k, out)
+			}
+		} else {
+			in := sx.L(dsx, sx.Nat(0), sx.L(ops...))
+			out := c.Emit("c18.multi", in, "history-narrow-dict|"+class)
+			c18MultiOracle(c, in, src, ops, out)
+		}
+	}
+	// 5c. pruned branches of any level mask, library cells, Merkle cells;
+	// consistent masks or (ill) arbitrary ones
+	ne := c.Scale(60, 1500)
+	for i := 0; i < ne; i++ {
+		merkle := i%3 == 0
+		ill := i%5 == 4
+		dag := smallTree(400, func() []Node { return c18ExoticDag(r, 2+r.Intn(9), merkle, ill) })
+		to := pathsTo(dag)
+		var paths [][]int
+		switch r.Intn(4) {
+		case 0:
+		case 1: // onto / above special cells
+			for j := range dag {
+				if dag[j].Special && r.Chance(50) {
+					p := to[j]
+					paths = append(paths, p[:len(p)-r.Intn(minInt(len(p), 2)+1)])
+				}
+			}
+		default:
+			paths = randPaths(r, dag, 1+r.Intn(3), 4)
+		}
+		hasM := false
+		for _, n := range dag {
+			hasM = hasM || isMerkleNode(n)
+		}
+		in := sx.L(dagSx(dag), sx.Nat(0), pathsSx(paths))
+		out := c.Emit("c18.proof", in, fmt.Sprintf("exotic|merkle%v|ill%v|level%d|prunes%d", hasM, ill, limBits(int(dag[0].Mask)), minInt(len(paths), 3)))
+		c18WalkOracle(c, "c18.proof", in, "", newC18Src(dag), paths, out)
 	}
 }
